@@ -20,7 +20,7 @@ Proof.
   cbn [with_seg c_stat].
   destruct (dget ref (c_stat c)) as [ss|]; [|split; reflexivity].
   match goal with |- context [cumulated ?c2 ?r ?s] => pose proof (cumulated_frame c2 r s) as [H1 H2]; destruct (cumulated c2 r s) as [c3 code] end.
-  cbn [fst] in H1, H2. destruct (code =? STATUS_EXPIRED); cbn [fst]; split; assumption.
+  cbn [fst] in H1, H2. destruct ((code =? STATUS_EXPIRED) || (code =? STATUS_FAILED)); cbn [fst]; split; assumption.
 Qed.
 
 (* a plain (unsegmented) SubmitSm that expires is handed to send_error itself *)
